@@ -339,6 +339,55 @@ def otel(ctx, facts, rule_f):
     badkv = [(g.path, g.loc(b), g.term(b).get("targs", [])[1:2]) for g, b in kvs if len(g.term(b).get("targs", [])) < 2 or not TEXT.match(g.term(b)["targs"][1])]
     ctx.check(bool(kvs) and not badkv, rule_f, "fastrace_opentelemetry", "-", "every attribute value is handed to KeyValue::new as text (the recorded string, unparsed)",
               "%d KeyValue::new sites" % len(kvs), "non-textual value types: %s" % badkv, extra="KeyValue.text")
+    # one attribute per recorded property: wherever KeyValue values are built in an iteration, every element taken yields one (no key
+    # is consumed for another purpose, no value decides whether the pair is exported)
+    hosts = {}
+    for g, bb in kvs:
+        hosts.setdefault(g.path, g)
+    n_iter = 0
+    for hp, g in sorted(hosts.items()):
+        if g.kind == "Closure" and not [bb for bb in g.calls_re(r"Iterator>?::next$", cleanup=False) if g.on_cycle(bb)]:
+            par = facts.fn(re.sub(r"(::\{closure#[^}]*\})+$", "", hp))
+            if par is None:
+                continue
+            calls = [par.term(bb)["callee"] for bb in par.calls() if not par.blocks[bb]["cleanup"]]
+            mapped = any(re.search(r"Iterator>?::map$", x) for x in calls) and \
+                any(re.search(r"Iterator>?::collect$|Extend(<.*>)?>?::extend$|Vec::<T, A>::extend\w*$", x) for x in calls)
+            badc = [x.rsplit("::", 1)[1] for x in calls if ITER_BAD.search(x)]
+            # the closure itself always yields a KeyValue
+            cs_ = g.calls_re(r"opentelemetry::common::KeyValue::new$", cleanup=False)
+            always, _w = g.must_pass([0], cs_)
+            n_iter += 1
+            ctx.check(mapped and not badc and always, rule_f, par.path, par.span,
+                      "every (key, value) pair iterated over yields one KeyValue (map -> collect / extend, no selecting adaptor)", "",
+                      "mapped=%s, selecting adaptors %s, closure builds a KeyValue on every path: %s" % (mapped, badc, always), extra="KeyValue.each:" + par.path.rsplit("::", 1)[-1])
+        else:
+            nx = [bb for bb in g.calls_re(r"Iterator>?::next$", cleanup=False) if g.on_cycle(bb)]
+            if not nx:
+                continue
+            n_iter += 1
+            cs_ = g.calls_re(r"opentelemetry::common::KeyValue::new$", cleanup=False)
+            ps = [bb for bb in g.calls_re(r"alloc::vec::Vec::<T, A>::push$", cleanup=False) if g.on_cycle(bb) and "KeyValue" in g.term(bb)["arg_tys"][0]]
+            okl = bool(ps)
+            wit = None
+            for n_ in nx:
+                some = set()
+                for sb in result_switches(g, n_):
+                    some |= set(g.variant_edges(sb, ["Some"]))
+                if not some:
+                    continue
+                r = g.reach([(a_, d_) for a_, d_, _ in some], avoid_blocks=ps)
+                if n_ in r or (r & set(g.returns())):
+                    # only the loop that builds KeyValues counts: a loop whose body can reach a KeyValue::new
+                    body = g.reach([(a_, d_) for a_, d_, _ in some], avoid_blocks=[n_])
+                    if body & set(cs_):
+                        okl = False
+                        wit = g.loc(n_)
+            ctx.check(okl, rule_f, g.path, g.span, "every (key, value) pair iterated over yields one KeyValue (one push per element on every path of the loop)",
+                      "", "an iteration of the loop at %s can end without pushing a KeyValue: the pair is consumed and not exported" % wit,
+                      extra="KeyValue.each:" + g.path.rsplit("::", 1)[-1])
+    ctx.check(n_iter >= 1, rule_f, "fastrace_opentelemetry", "-", "the iteration that turns properties into KeyValues is found", "%d" % n_iter,
+              "anchor lost: no map/loop around KeyValue::new", extra="KeyValue.each")
     # events <- map_events(record.events)
     ev = f["events"]
     sd = fn.single_def(root_local(fn, ev)[0]) if ev["k"] in ("copy", "move") else None
@@ -507,6 +556,12 @@ def once_each(ctx, facts, rule):
                 ss = [b for b in tr.calls() if not tr.blocks[b]["cleanup"] and tr.term(b)["args"] and
                       any(x.kind == "param" and x.key == 1 and ".exporter" in x.path for x in prov.of_operand(tr, tr.term(b)["args"][0]))
                       and not re.search(r"Deref(Mut)?>?::deref(_mut)?$|as_(ref|mut)$", tr.term(b)["callee"])]
+            if name != "JaegerReporter":
+                # one request per batch: a retry loop around the send re-transmits a batch the receiver may already hold (a time-out
+                # while waiting for the answer says nothing about the request)
+                loops = [tr.loc(x) for x in ss if tr.on_cycle(x)]
+                ctx.check(bool(ss) and not loops, rule, tr.path, tr.span, "%s::try_report sends the batch once (the send is not inside a loop)" % name, "",
+                          "send sites on a cycle: %s" % loops, extra="send-once")
             okc = bool(cs) and bool(ss) and all(any(tr.dominates(c, s) for c in cs) for s in ss)
             full = bool(cs) and all(has_origin(prov.of_operand(tr, tr.term(c)["args"][1]), kind="param", key=2) for c in cs)
             ctx.check(okc and full, rule, tr.path, tr.span, "try_report converts the batch it was given and then sends it (convert dominates the send)", "",
